@@ -645,6 +645,12 @@ func syncIndexedDoc(
 		return err
 	}
 
+	if isNewDoc && isDeletedDoc {
+		// The document is visible neither before nor after the merge, for example
+		// because it was already deleted locally. It has no index entries to sync.
+		return nil
+	}
+
 	if isNewDoc {
 		return col.indexNewDoc(ctx, doc)
 	} else if isDeletedDoc {
